@@ -10,7 +10,7 @@ pub enum Either<L, R> { Left(L), Right(R) }
 // Collector impl are EXTRACTED and PROVED in unit `stepsize` against exactly the contract text used here
 // (AcceptanceRateCollector::new: contracts.vspec of units adapt / stepsize; register_leapfrog / register_init:
 // arc_leapfrog_pre / arc_leapfrog_post / arc_init_post of _shared/stepsize_spec.rs).
-pub struct CollGhost { pub leapfrogs: nat, pub traj: Map<int, StateView>, pub draws: Seq<StateView> }
+pub struct CollGhost { pub leapfrogs: nat, pub traj: Map<int, StateView>, pub draws: Seq<StateView>, pub divs: nat }
 pub struct AcceptanceRateCollector {
     pub initial_energy: F,
     pub mean: RunningMean,
@@ -30,6 +30,7 @@ impl<M: Math, P: Point<M>> Collector<M, P> for AcceptanceRateCollector {
     open spec fn leapfrogs(&self) -> nat { self.ghost_log@.leapfrogs }
     open spec fn traj(&self) -> Map<int, StateView> { self.ghost_log@.traj }
     open spec fn draws(&self) -> Seq<StateView> { self.ghost_log@.draws }
+    open spec fn divs(&self) -> nat { self.ghost_log@.divs }
     // same text as impl_extra.rs of unit `stepsize` (the precondition of the real method becomes a guard here,
     // because the façade's `leapfrog` cannot require anything of the collector)
     open spec fn lf_post(&self, post: &Self, end: StateView, diverged: bool) -> bool {
